@@ -59,6 +59,20 @@ func installBuiltins(in *Interp, p *Pkg) {
 			for _, x := range a[1:] {
 				acc = ff(acc, fl(x))
 			}
+			// "Returns int if all args are ints; otherwise float" does not say WHEN the
+			// ints of a mixed call become floats; it matters only when a leading run of
+			// ints overflows (int overflow itself is undocumented): unspecified then.
+			cur := a[0]
+			for _, x := range a[1:] {
+				if cur.K == KInt && x.K == KInt {
+					cur = Int(fi(cur.I, x.I))
+				} else {
+					cur = Float(ff(fl(cur), fl(x)))
+				}
+			}
+			if cur.String() != Float(acc).String() {
+				return nil, &Err{Cond: "<unspecified>"}
+			}
 			return Float(acc), nil
 		})
 	}
@@ -418,12 +432,21 @@ func minmax(num func(*Interp, *Val, *Val) *Err, allInts func([]*Val) bool, fl fu
 			return Int(best), nil
 		}
 		best := fl(a[0])
+		arg := a[0]
 		for _, x := range a[1:] {
+			if (max && fl(x) > fl(arg)) || (!max && fl(x) < fl(arg)) {
+				arg = x
+			}
 			if max {
 				best = math.Max(best, fl(x))
 			} else {
 				best = math.Min(best, fl(x))
 			}
+		}
+		if !math.IsNaN(best) {
+			// "the largest of the given numeric arguments": the argument itself, an int stays an int
+			// (visible only for ints a float cannot hold exactly)
+			return arg, nil
 		}
 		return Float(best), nil
 	}
